@@ -224,3 +224,43 @@ Theorem C03_stable : forall c acts1 acts2 e,
   exists e', World.w_exp (World.run c (acts1 ++ acts2)) = Some e' /\ WorldPlan.verdict_same (World.e_st e) (World.e_st e').
 Proof. exact WorldThm.verdict_stable_run. Qed.
 Print Assumptions C03_stable.
+
+(* ------------------------------------------------------------------ "justified" over runs (joint controller model) *)
+From KV Require Import Proofs.WorldInv5 Proofs.WorldDecide Proofs.WorldSugFail Proofs.WorldNoCreate.
+
+(* what "the trials decide" means: the goal is met by the objective value of some trial, or maxFailedTrialCount is reached
+   by failed + metrics-unavailable trials (at least one), or maxTrialCount trials are completed *)
+Theorem C03_tdec_spec : forall cf mx ts,
+  tdec cf mx ts =
+  (goal_hit (World.c_minimize cf) (World.c_goal cf) ts
+   || match World.c_maxfailed cf with
+      | Some f => negb (World.n_failed (World.counts_of (cls ts)) + World.n_mu (World.counts_of (cls ts)) =? 0)%Z
+                  && (f <=? World.n_failed (World.counts_of (cls ts)) + World.n_mu (World.counts_of (cls ts)))%Z
+      | None => false end
+   || match mx with Some m => (m <=? World.completed_count (World.counts_of (cls ts)))%Z | None => false end).
+Proof. reflexivity. Qed.
+Print Assumptions C03_tdec_spec.
+
+(* the status recomputed from a trial list (by a reconcile whose status in memory has no verdict) has a verdict exactly
+   when the trials decide *)
+Theorem C03_recompute : forall cf mx now st ts,
+  World.e_completed st = false -> World.e_completed (World.update_status cf mx now st ts) = tdec cf mx ts.
+Proof. exact update_status_completed. Qed.
+Print Assumptions C03_recompute.
+
+(* and that is monotone: a later version of the trial list (same trials with conditions / observations that only
+   progressed, possibly more trials) decides whenever an earlier one did *)
+Theorem C03_decision_monotone : forall cf mx ts ts',
+  WorldStab.plag WorldStab.tst ts ts' -> tdec cf mx ts = true -> tdec cf mx ts' = true.
+Proof. exact tdec_mono. Qed.
+Print Assumptions C03_decision_monotone.
+
+(* Over runs: a verdict of the stored experiment that the user has not enabled to restart is backed by the STORED trials
+   (they decide, with the experiment's current maxTrialCount) or by a failed stored suggestion. *)
+Theorem C03_verdict_justified : forall c acts e,
+  World.valid_cfg c -> no_teardown acts ->
+  World.w_exp (World.run c acts) = Some e -> World.e_completed (World.e_st e) = true -> WorldPlan.restart_enabled_e c e = false ->
+  (World.w_trials (World.run c acts) <> [] /\ tdec c (World.e_max e) (World.w_trials (World.run c acts)) = true) \/
+  (exists s, World.w_sug (World.run c acts) = Some s /\ sfailed (World.s_st s) = true).
+Proof. exact verdict_justified. Qed.
+Print Assumptions C03_verdict_justified.
